@@ -444,6 +444,10 @@ PROPS["C07"] = {
               "Ok iff the declared reason length fits the body; a length pointing past the end is an error, never a panic", bound="count = 1, 8-byte body: source and reason-length octet symbolic, 3 literal text bytes", module=RM, timeout=1800),
             K("parse_goodbye: reason-length boundary values", "c07_parse_goodbye_reason_len_boundary", "quick", "bounded", ["parse_goodbye"],
               "length 3 (exact fit) accepted; 4 (one past the end) and 255 rejected; truncated source list rejected — errors, never panics", bound="count = 1, literal length octets 3 / 4 / 255, literal text, symbolic source", module=RM, timeout=600),
+            K("username scanners reject short datagrams", "c07_username_from_stun_short", "quick", "bounded", ["username_from_stun_bytes", "peer_ufrag_from_binding_request"],
+              "None below 20 bytes", bound="19 bytes symbolic", module="transports::ice::shared_tcp"),
+            K("username attribute length past the end (literal framing)", "c07_username_len_past_end_literal", "quick", "bounded", ["username_from_stun_bytes"],
+              "the scan stops, no panic, None", bound="32-byte message, USERNAME length octet symbolic >= 9", module="transports::ice::shared_tcp", timeout=600),
             K("parse_xor_address total (<= 20 B)", "c07_parse_xor_address_total", "quick", "bounded", ["parse_xor_address"],
               "Ok for every value; None exactly for short values / unknown family", bound="value length 0..20 (symbolic), any family", module=SM),
             K("set_extension total on a received 4-byte block", "c07_set_extension_total_4", "thorough", "bounded", ["RtpHeader::set_extension"],
